@@ -368,7 +368,17 @@ func (o OneOfSchema[KeyType]) findUnderlyingType(data any) (KeyType, Object, err
 
 	var foundKey *KeyType
 	if reflectedType.Kind() == reflect.Map {
-		myKey, mySchemaObj, err := o.validateMap(data.(map[string]any))
+		mapData, ok := data.(map[string]any)
+		if !ok {
+			// For example map[any]any, as produced by decoders: report it instead of panicking.
+			return nilKey, nil, &ConstraintError{
+				Message: fmt.Sprintf(
+					"Invalid type for one-of type: '%T' expected a map with string keys.",
+					data,
+				),
+			}
+		}
+		myKey, mySchemaObj, err := o.validateMap(mapData)
 		if err != nil {
 			return nilKey, nil, err
 		}
